@@ -3,7 +3,8 @@
 N=$1; shift
 cd /repo && git diff --quiet || { echo "/repo has uncommitted changes"; exit 9; }
 git -C /repo apply /verif/seeded/$N/patch.diff || { echo "patch does not apply"; exit 9; }
-trap 'git -C /repo checkout -- . ' EXIT
+rm -rf /tmp/evidence_keep && cp -a /verif/evidence /tmp/evidence_keep
+trap 'git -C /repo checkout -- . ; rm -rf /verif/evidence && mv /tmp/evidence_keep /verif/evidence; rm -rf /verif/replays' EXIT
 cd /verif
 for c in "$@"; do
   out=$(python3 check.py $c --tier ${TIER:-quick} 2>&1); rc=$?
